@@ -69,6 +69,7 @@ type FuncContract struct {
 	// results naming for ensures on trusted funcs
 	NoOverflow bool
 	Terminates bool
+	AnyMode    bool
 	Extra      map[string]string
 }
 
@@ -112,6 +113,7 @@ type Contracts struct {
 	Files  []string
 	Assumptions []string // trusted/abstract/etc. scan results
 	dupTrusted  [][2]*FuncContract
+	Tables      map[string]bool // "pkgpath.name" of package-level tables
 }
 
 // CheckDuplicates verifies that repeated trusted contracts carry the same clauses.
@@ -136,14 +138,14 @@ func (cs *Contracts) CheckDuplicates() error {
 }
 
 func NewContracts() *Contracts {
-	return &Contracts{Funcs: map[string]*FuncContract{}, Specs: map[string]*SpecFunc{}}
+	return &Contracts{Funcs: map[string]*FuncContract{}, Specs: map[string]*SpecFunc{}, Tables: map[string]bool{}}
 }
 
 var clauseKW = map[string]bool{
 	"func": true, "spec": true, "lemma": true, "axiom": true, "trusted": true, "mode": true, "props": true,
 	"requires": true, "ensures": true, "modifies": true, "loop": true, "inline": true,
 	"pure": true, "nullable": true, "may_alias": true, "panics": true, "wraps": true,
-	"decoder": true, "abstract": true, "ghost": true, "terminates": true, "uninterp": true, "at": true, "opaque": true, "def": true,
+	"decoder": true, "abstract": true, "ghost": true, "terminates": true, "uninterp": true, "at": true, "opaque": true, "def": true, "table": true, "anymode": true,
 }
 
 var reTag = regexp.MustCompile(`^(\w+)\[([A-Z0-9, ]+)\]`)
@@ -292,6 +294,11 @@ func (cs *Contracts) ParseContractFile(path, pkgPath string) error {
 			sf.Opaque = true
 			sf.EntryState = entry
 			cs.Specs[pkgPath+"."+sf.Name] = sf
+			cur = nil
+		case "table":
+			for _, n := range strings.Fields(strings.ReplaceAll(rest, ",", " ")) {
+				cs.Tables[pkgPath+"."+n] = true
+			}
 			cur = nil
 		case "uninterp":
 			if !strings.HasPrefix(rest, "func ") {
@@ -460,6 +467,10 @@ func (cs *Contracts) ParseContractFile(path, pkgPath string) error {
 				cur.Decoder = true
 			case "terminates":
 				cur.Terminates = true
+			case "anymode":
+				// the contract's spec expressions mean the same over mathematical integers and over
+				// bit-vectors (no wrap-around can occur in them): it may be applied from either mode
+				cur.AnyMode = true
 			case "abstract":
 				cur.Abstract = append(cur.Abstract, rest)
 			case "ghost":
